@@ -101,3 +101,15 @@ Print Assumptions C12_tmt_cell.
 Theorem C12_tmt_width : forall cut exps width l, length (tmt_intensities cut exps width l) = length exps * width.
 Proof. exact tmt_length. Qed.
 Print Assumptions C12_tmt_width.
+
+(* with an experimental design the per-experiment columns follow the design's order of experiments (not the sorted names): value k of
+   every per-experiment block belongs to the k-th experiment of the design *)
+Theorem C12_table_rows_with_design : forall ibaq cutoff_of ns groups rows dexps exps out,
+  quantify_design ibaq cutoff_of ns groups rows dexps = Ok (exps, out) ->
+  let s := create_index (of_list groups) in
+  let cut := cutoff_of (cutoff_peps s rows) in
+  exps = dexps /\
+  Forall2 (fun ig r => quant_row ibaq cut dexps ns (snd ig) (attached s rows (fst ig)) = Ok r)
+          (filter (fun ig => nonempty (attached s rows (fst ig))) (combine (seq 0 (length groups)) groups)) out.
+Proof. exact quantify_design_rows. Qed.
+Print Assumptions C12_table_rows_with_design.
